@@ -48,12 +48,20 @@ type lcHist struct {
 	paySeq    []int64
 	opensOK   []sim.EvTx // chain.accept op=open by victim
 	spendsOK  []sim.EvTx // chain.accept other ops by victim
+	// every spend the victim handed to the chain (accepted or rejected), and the log positions of these and of the
+	// store writes
+	spendTry    []sim.EvTx
+	spendTrySeq []int64
+	writeSeq    []int64
 	crashes   int
 	restarts  int
 	panics    []string
 	cancelSeq int64 // seq of first committed SwapCanceled record
 	events    int
 	whileDown func(h *lcHist) // runs once, right before the first restart after a crash
+	// redeliver: after the first restart the peer's last message to the victim is delivered once more
+	redeliver bool
+	lastIn    *sim.EvMsg
 }
 
 func (h *lcHist) attach() {
@@ -67,9 +75,14 @@ func (h *lcHist) attach() {
 			return
 		}
 		switch e.Kind {
+		case "deliver.msg":
+			if x, ok := e.P.(sim.EvMsg); ok && h.redeliver {
+				h.lastIn = &x
+			}
 		case "store.write":
 			x := e.P.(sim.EvStore)
 			h.writes = append(h.writes, x)
+			h.writeSeq = append(h.writeSeq, e.Seq)
 			if x.State == string(swap.State_SwapCanceled) && h.cancelSeq == 0 && x.Err == "" {
 				h.cancelSeq = e.Seq
 			}
@@ -85,6 +98,13 @@ func (h *lcHist) attach() {
 				h.opensOK = append(h.opensOK, x)
 			} else {
 				h.spendsOK = append(h.spendsOK, x)
+				h.spendTry = append(h.spendTry, x)
+				h.spendTrySeq = append(h.spendTrySeq, e.Seq)
+			}
+		case "chain.reject":
+			if x := e.P.(sim.EvTx); x.Op != "open" {
+				h.spendTry = append(h.spendTry, x)
+				h.spendTrySeq = append(h.spendTrySeq, e.Seq)
 			}
 		case "node.crash":
 			h.crashes++
@@ -106,6 +126,13 @@ func (h *lcHist) revive() {
 		h.victim.CrashAt = 0 // a crash point fires once
 		if err := h.victim.Restart(); err == nil {
 			h.p.w.Run()
+			if h.redeliver && h.lastIn != nil {
+				// the peer, seeing the node come back, sends its last message once more
+				m := h.lastIn
+				h.lastIn = nil
+				h.p.w.InjectMsg(m.Peer, h.victim.Name, m.Type, m.Payload)
+				h.p.w.Run()
+			}
 		}
 	}
 }
